@@ -136,6 +136,21 @@ CHECKS["C06"] = dict(
     ref="DESIGN.md 5.4, 8 (C06)",
     technique="exhaustive TLC enumeration of Conflict.tla / ConflictMerge.tla + exhaustive replay on a real cluster + TLC trace validation")
 
+LEDGER_NOTE = TRUST + "; membership steps (push, balancer runs, stops) are driven by the harness; failure detection uses memberlist with probe interval 250 ms"
+CHECKS["C03"] = dict(
+    text="Rebalance.tla (keys, tables, stale views, table-by-table moves, deletes) is model-checked for AgreesWithLedger / ReadFindsFragmented / NoDuplicatePrimary. On real "
+         "clusters joins (and leaves for R=2) are applied with Put/Delete operations and reads from every member placed after the push but before any move, between single-table "
+         "balancer runs, at stabilisation (with white-box copy counts) and after; TLC (LedgerTrace.tla) checks every read against the ledger of acknowledged operations and the "
+         "copy-count rules.",
+    ref="DESIGN.md 5.4, 8 (C03), appendix F", note=LEDGER_NOTE,
+    technique="TLC model checking of Rebalance.tla + TLC trace validation of ledger traces from harness-driven hand-overs (LedgerTrace.tla)")
+CHECKS["C02"] = dict(
+    text="Same ledger specification: after a healthy phase 1..R-1 members are stopped (random member or coordinator, graceful or abrupt, quiescent or under a workload on other keys); "
+         "after each re-stabilisation every asserted key is read from every survivor, then plain operations continue; TLC (LedgerTrace.tla) rejects any read outside the set of "
+         "admissible values (lost write, rolled-back value, resurrected delete). Design level: Rebalance.tla with leaves.",
+    ref="DESIGN.md 5.4, 8 (C02)", note=LEDGER_NOTE,
+    technique="TLC model checking of Rebalance.tla (with leaves) + TLC trace validation of ledger traces from fault-injection runs (LedgerTrace.tla)")
+
 NOT_YET = {}
 
 def main():
